@@ -2,19 +2,22 @@
 def instances(tier):
     out = []
     T, L, B = 'tlb', 'liteclient', 'boc'
-    shapes = [(24, 0, 0), (40, 0, 0), (12, 1, 16), (6, 2, 12)] if tier == 'quick' else [(16, 0, 0), (24, 0, 0), (40, 0, 0), (64, 0, 0), (12, 1, 16), (24, 1, 24), (6, 2, 12), (16, 2, 16)]
+    shapes = [(24, 0, 0), (12, 1, 16), (6, 2, 12)] if tier == 'quick' else [(16, 0, 0), (24, 0, 0), (40, 0, 0), (64, 0, 0), (12, 1, 16), (24, 1, 24), (6, 2, 12), (16, 2, 16)]
     for typ in ('MsgAddress', 'CurrencyCollection', 'StateInit', 'Message', 'HashmapE', 'VmStack', 'Text', 'SnakeData'):
         for (nb, nr, cb) in shapes:
             if typ in ('StateInit', 'Message') and nr > 0 and tier == 'quick':
                 continue
             out.append((T, f'VH_C08_tlb_{typ}', [nb, nr, cb], {'weight': nb + 20 * nr}))
-    for (cb, rt) in ([(2, 0), (36, 0), (36, 3), (70, 4)] if tier == 'quick' else [(k, t) for k in (0, 1, 2, 34, 36, 68, 70, 102) for t in (0, 1, 2, 3, 4)]):
-        out.append((B, 'VH_C08_hash_total', [cb, rt], {'weight': 50}))
-    tl = {'AccountId': [0, 4, 36, 40], 'SendMessageRequest': [0, 1, 4, 8, 12], 'BlockTransactions': [0, 80, 96, 100, 104],
-          'RunMethodResult': [0, 4, 88, 168, 172, 176], 'BlockLink': [0, 4, 24, 172, 180]}
+    for (cb, rt) in ([(2, 0), (36, 0), (36, 3)] if tier == 'quick' else [(k, t) for k in (0, 1, 2, 34, 36, 68, 70, 102) for t in (0, 1, 2, 3, 4)]):
+        out.append((B, 'VH_C08_cell_hash_total', [cb, rt], {'weight': 50}))
+    tl = {'AccountId': [0, 4, 36, 40], 'SendMessageRequest': [0, 1, 4, 8, 12], 'BlockTransactions': [0, 80, 96, 100],
+          'RunMethodResult': [0, 4, 88, 168], 'BlockLink': [0, 4, 24, 92]}
     for typ, Ls in tl.items():
         for n in Ls:
             out.append((L, f'VH_C08_tl_{typ}', [n], {'weight': n + 1}))
+    if tier == 'thorough':
+        out.append((L, 'VH_C08_tl_BlockLink', [180], {'weight': 500}))
+        out.append((L, 'VH_C08_tl_RunMethodResult', [176], {'weight': 500}))
     out.append((L, 'VH_C08_tl_marshal_modes', [], {}))
     for k in range(0, 7):
         out.append((L, 'VH_C12_decodeLength_total', [k], {}))
